@@ -63,8 +63,18 @@ func ZZ_C13_Cond() {
 		}
 		return false
 	}
+	// kind 9: $include of a file that holds a conditional block of its own with one binding
+	// in its $if part and one in its $else part. The library parses an included file with a
+	// fresh parser (own condition stack, keymap emacs), and only when the including block
+	// is active.
+	nkinds := 8
+	if zzverif.Param("inc") == "1" {
+		nkinds = 9
+	}
+	incLetter := ""
+	included := false
 	for i := 0; i < d; i++ {
-		kind := zzverif.IntRange("kind"+strconv.Itoa(i), 0, 8)
+		kind := zzverif.IntRange("kind"+strconv.Itoa(i), 0, nkinds)
 		idx := strconv.Itoa(i)
 		// prune programs that can no longer be closed within the bound
 		zzverif.Assume(len(stack) <= d-i)
@@ -129,6 +139,18 @@ func ZZ_C13_Cond() {
 			if curActive() {
 				binds[string(rune(0x80|int(idx[0])))] = expect{keymap, "mac" + idx, true}
 			}
+		case 9:
+			zzverif.Assume(!included) // one include per program
+			included = true
+			incLetter = letter("inc")
+			text += "$include zzfile\n"
+			if curActive() {
+				if "m"+incLetter == pmode {
+					binds["\x18i"] = expect{"emacs", "fninc", false}
+				} else {
+					binds["\x18e"] = expect{"emacs", "fnelse", false}
+				}
+			}
 		}
 	}
 	// well-formed programs only: every $if closed
@@ -136,6 +158,9 @@ func ZZ_C13_Cond() {
 	zzverif.Reach("wellformed")
 
 	cfg := NewConfig()
+	cfg.ReadFileFunc = func(name string) ([]byte, error) {
+		return []byte("$if mode=m" + incLetter + "\n\"\\C-xi\": fninc\n$else\n\"\\C-xe\": fnelse\n$endif\n"), nil
+	}
 	err := ParseBytes([]byte(text), cfg, WithMode(pmode), WithTerm(pterm), WithApp(papp))
 	zzverif.Note("program", text)
 	zzverif.Assert(err == nil, "no-error-on-wellformed")
